@@ -41,8 +41,8 @@ def theta_values(angles, dtype):
 # ------------------------------------------------------------------------------------------------
 # case -> arrays (pure functions of the JSON case)
 # ------------------------------------------------------------------------------------------------
-def build_image(spec, N):
-    """float32 (N, N) image, zero outside the disc."""
+def build_image(spec, N, masked=True):
+    """float32 (N, N) image, zero outside the disc (masked=False: the same image before masking)."""
     t = spec["type"]
     img = np.zeros((N, N), dtype=np.float64)
     if t == "impulse":
@@ -65,7 +65,9 @@ def build_image(spec, N):
                 img[r0 : r1 + 1, c0 : c1 + 1] += rng.choice([-2.0, -1.0, 0.5, 1.0, 3.0])
         else:
             raise ValueError("unknown image type %r" % (t,))
-    img = img * float(spec.get("amp", 1.0)) * disc(N)
+    img = img * float(spec.get("amp", 1.0))
+    if masked:
+        img = img * disc(N)
     return img.astype(np.float32)
 
 
@@ -140,4 +142,6 @@ def unstable_pixels(N, theta64, circle):
     for ang in np.deg2rad(np.asarray(theta64, dtype=np.float64)):
         t = ypr * np.cos(ang) - xpr * np.sin(ang)
         bad |= (np.abs(t - lo) < 1e-3) | (np.abs(t - hi) < 1e-3)
+    if circle:
+        bad &= (xpr**2 + ypr**2) <= radius**2  # outside the circle both sides write exact zeros
     return bad
